@@ -212,7 +212,14 @@ constraint:
 				for _, co := range c.IndexedColumns {
 					st.column(co.Column).Null = false
 				}
-				if st.setPK(st.toIndexColumns(c.IndexedColumns)) {
+				pk := st.toIndexColumns(c.IndexedColumns)
+				if col := st.column(pk[0].Column); len(pk) == 1 && isRowid(true, col.Type, pk[0].SortOrder) {
+					// SQLite makes the index for what looks like a rowid
+					// alias from the column alone: a COLLATE given in the
+					// constraint is lost.
+					pk[0].Collate = col.Collate
+				}
+				if st.setPK(pk) {
 					// uses an existing index
 				} else if col := st.column(c.IndexedColumns[0].Column); len(c.IndexedColumns) != 1 || !isRowid(true, col.Type, c.IndexedColumns[0].SortOrder) {
 					// see the note at the column constraint
